@@ -160,23 +160,23 @@ for _p, _t in (('C12', '; abstract interpretation of BytearrayStream over byte w
 
 # rounds 9 and 10 (DESIGN.md 11.10, 11.11)
 LATER = {
- 'C01': ' Ninth round: the Template<->Attributes converters are compared element-wise for every attribute tag (R5); the text decoder yields one character per value byte for every length 0..24 (R10). Tenth round: the attribute value registries are evaluated (constructors recorded, not run) when their return statements say nothing, so table-driven registries are decided like if-chains.',
- 'C03': ' Ninth round: nothing between the identity sources and the decision turns an empty group list into "no group information" (R14).',
+ 'C01': ' Ninth round: the Template<->Attributes converters are compared element-wise for every attribute tag (R5); the text decoder yields one character per value byte for every length 0..24 (R10). Tenth round: the attribute value registries are evaluated (constructors recorded, not run) when their return statements say nothing, so table-driven registries are decided like if-chains. Eleventh round: a writer decides the presence of a field by presence alone, never by the field\'s value (R2).',
+ 'C03': ' Ninth round: nothing between the identity sources and the decision turns an empty group list into "no group information" (R14). Eleventh round: R14 also covers conditionals whose kept arm is derived from the tested value (list(groups) if groups else None).',
  'C04': ' Tenth round: in a handler that stores a state no failure is raised while the change is uncommitted (R7, lifted from C08.R3); a guard the analysis cannot read ends the check with an analysis error instead of a report.',
  'C05': ' Ninth round: a persisted field bound only under a test of another field of the source counts as lost (R2 conditional carry).',
  'C06': ' Ninth round: DeriveKey input selection folded over every list of 1-3 base objects with and without Derivation Data (R10).',
- 'C07': ' Ninth round: nothing in the server removes or truncates store files and every start opens the store the same way (R9, lifted from C09); the object handed out by a load is the result of the query made in that call (R10).',
+ 'C07': ' Ninth round: nothing in the server removes or truncates store files and every start opens the store the same way (R9, lifted from C09); the object handed out by a load is the result of the query made in that call (R10). Eleventh round: the delete of Destroy selects the row by its identifier alone (R3 delete criteria).',
  'C09': ' Tenth round: R6 (no transaction control besides the one commit) also covers the data session under a local name (with ... as session).',
  'C10': ' Ninth round: no engine field that flows into a returned value is updated in place (R6). Tenth round: class-level containers changed through a local alias are shared state (R3); the session factory is a plain sessionmaker and the batch session is the context manager around the batch loop (R7).',
  'C11': ' Ninth round: session fields stored outside __init__ are definitely assigned per message before they are read (R3).',
  'C12': ' Ninth round: one character per byte in the text decoder (R12 = C01.R10). Tenth round: the maximum response size process_request hands back is a local set from this request (R5, engine side).',
- 'C13': ' Ninth round: one()-style queries filter on unique columns only (R16). Tenth round: a converter of ObjectFactory reads no field of an optional key-block field without a None test (R11, F32 repaired); an object that came out of a query has only class-level attributes - plain attributes that only __init__ stores are absent (R1).',
- 'C14': ' Ninth round: the per-attribute match test of Locate folded over small concrete values (R10).',
+ 'C13': ' Ninth round: one()-style queries filter on unique columns only (R16). Tenth round: a converter of ObjectFactory reads no field of an optional key-block field without a None test (R11, F32 repaired); an object that came out of a query has only class-level attributes - plain attributes that only __init__ stores are absent (R1). Eleventh round: calendar conversions take the server clock, a value the dominating tests keep near it, or run in a try (R17; F33 repaired in /repo); a local holding an optional field is read only behind a test of that local (R11).',
+ 'C14': ' Ninth round: the per-attribute match test of Locate folded over small concrete values (R10). Eleventh round: the Initial Date filter folded over 105 combinations is the inclusive range (R11).',
  'C15': ' Tenth round: the property setters of the stored classes refuse a value for its type only, never for its value (R10): the in-place multi-field updates are not rolled back.',
  'C16': ' Tenth round: the two version queries of the attribute policy are folded over every (request version, rule version) pair instead of being matched by shape (R8).',
  'C17': ' Tenth round: every caller of the enable_tls_client_auth setter leaves the check on when the configuration does not mention it (R6); sessions never write to the authentication settings they share (R8, lifted from C10.R3).',
  'C18': ' Ninth round: the document family of the parser fold includes falsy non-objects at every level (R11; F31 repaired). Tenth round: the directory listing folded over a model directory names every *.json entry, whatever its size (R13).',
- 'C19': ' Ninth round: no mutable default argument in the client modules (R12); optional response fields are not gated on the value of earlier fields (R11). Tenth round: result classes hand their parameters to the base constructor under the same names (R13).',
+ 'C19': ' Ninth round: no mutable default argument in the client modules (R12); optional response fields are not gated on the value of earlier fields (R11). Tenth round: result classes hand their parameters to the base constructor under the same names (R13). Eleventh round: R9 follows locals that hold item fields.',
  'C20': ' Ninth round: no raise in the readers of the secret-carrying primitives builds its text from the value bytes (R7).',
 }
 
